@@ -379,7 +379,7 @@ func TestC18a(t *testing.T) {
 				for b := 0; b < len(kinds); b++ {
 					scs = append(scs, ascenario{[]string{kinds[a], kinds[b]}, caSet, warm})
 					for c := b; c < len(kinds); c++ {
-						if env.Thorough() || (c < 3 && len(caSet) == 1) {
+						if env.Thorough() || c < 3 {
 							scs = append(scs, ascenario{[]string{kinds[a], kinds[b], kinds[c]}, caSet, warm})
 						}
 					}
@@ -387,9 +387,9 @@ func TestC18a(t *testing.T) {
 			}
 		}
 	}
-	bound := 2
+	bound := 3
 	if env.Thorough() {
-		bound = 3
+		bound = 4
 	}
 	res.Bounds["preemptions"] = bound
 	res.Bounds["scenarios"] = len(scs)
